@@ -5,7 +5,7 @@ import random
 from .. import tlc, replay_engine, trace_engine
 from ..tlc import RawTLA, MachineryError
 
-MODULES = {"LwRing", "LwMatrix", "LwFock", "LwCircuitDefs", "LwCircuit"}
+MODULES = {"LwRing", "LwMatrix", "LwFock", "LwCircuitDefs", "LwEmuDefs", "LwCircuit"}
 DEFAULTS = dict(Scenario="single", NUs={3}, PNu=3, NObj=1, Numeric=True, MaxLen=2, MaxRej=0, MaxAnc=0,
                 Kinds={"bs"}, BadModes=RawTLA("{}"), Rids={1}, Convs={"Rx"}, Lqs={0}, Pids={1}, LossQs={1}, BadVals=False,
                 SwapLevel=0, UIds={"H"}, HeraldNs={0, 1}, Targets={1}, AddPairs=RawTLA("{}"), TmplLoss=False,
